@@ -1,6 +1,7 @@
 package main
 
 import (
+	"go/constant"
 	"fmt"
 	"go/ast"
 	"go/token"
@@ -287,6 +288,19 @@ func ruleEFloatArithSites(p *Program, r *Reporter) {
 						single = false
 					}
 				}
+				if !pair || !single {
+					// the operands may travel from the coercion to the arithmetic through a struct built for the purpose
+					// or as a value of a float type declared for the purpose
+					all := true
+					for _, o := range operands {
+						if !coercedFloatValue(p, o, map[ssa.Value]bool{}, 0) {
+							all = false
+						}
+					}
+					if all {
+						pair, single = true, true
+					}
+				}
 				_, unary := in.(*ssa.UnOp)
 				// an entry of an operator table: an anonymous function of the package initialiser whose float parameters are
 				// the operands; what is passed to it is decided by E-OPCHAIN, which interprets the call through the table
@@ -311,6 +325,125 @@ func ruleEFloatArithSites(p *Program, r *Reporter) {
 			}
 		}
 	}
+}
+
+// coercedFloatValue: v is a result of one of the float coercions (toFloat, toFloatPair), possibly carried by
+//   - a field of a struct type of the package every store to which, anywhere, is such a value (or zero),
+//   - a value of a named float type of the package every conversion to which, anywhere, is from such a value,
+//   - conversions between float types and merges of such values.
+func coercedFloatValue(p *Program, v ssa.Value, seen map[ssa.Value]bool, depth int) bool {
+	if depth > 6 {
+		return false
+	}
+	if seen[v] {
+		return true
+	}
+	seen[v] = true
+	if floatOperand(v, 0) || floatOperand(v, 1) || coercedFloat(v) {
+		return true
+	}
+	if nt, ok := types.Unalias(v.Type()).(*types.Named); ok && nt.Obj().Pkg() == p.Eval.Types {
+		if bt, ok := nt.Underlying().(*types.Basic); ok && bt.Info()&types.IsFloat != 0 {
+			return namedFloatOnlyFromCoercion(p, nt, depth)
+		}
+	}
+	switch x := v.(type) {
+	case *ssa.Const:
+		return x.Value != nil && constant.Sign(constant.ToFloat(x.Value)) == 0
+	case *ssa.Convert:
+		return coercedFloatValue(p, x.X, seen, depth+1)
+	case *ssa.ChangeType:
+		return coercedFloatValue(p, x.X, seen, depth+1)
+	case *ssa.Phi:
+		for _, e := range x.Edges {
+			if !coercedFloatValue(p, e, seen, depth+1) {
+				return false
+			}
+		}
+		return true
+	case *ssa.Field:
+		return fieldOnlyFromCoercion(p, x.X.Type(), x.Field, depth)
+	case *ssa.UnOp:
+		if x.Op == token.MUL {
+			if fa, ok := x.X.(*ssa.FieldAddr); ok {
+				return fieldOnlyFromCoercion(p, derefType(fa.X.Type()), fa.Field, depth)
+			}
+			if al, ok := x.X.(*ssa.Alloc); ok {
+				// a spilled local: every store to it
+				n := 0
+				for _, ref := range *al.Referrers() {
+					if st, ok := ref.(*ssa.Store); ok && st.Addr == ssa.Value(al) {
+						n++
+						if !coercedFloatValue(p, st.Val, seen, depth+1) {
+							return false
+						}
+					}
+				}
+				return n > 0
+			}
+		}
+	}
+	return false
+}
+
+func fieldOnlyFromCoercion(p *Program, t types.Type, field int, depth int) bool {
+	nt, ok := types.Unalias(t).(*types.Named)
+	if !ok || nt.Obj().Pkg() != p.Eval.Types {
+		return false
+	}
+	if _, ok := nt.Underlying().(*types.Struct); !ok {
+		return false
+	}
+	n := 0
+	for _, fn := range p.Funcs {
+		for _, b := range fn.Blocks {
+			for _, in := range b.Instrs {
+				st, ok := in.(*ssa.Store)
+				if !ok {
+					continue
+				}
+				if fa, ok := st.Addr.(*ssa.FieldAddr); ok && fa.Field == field && types.Identical(derefType(fa.X.Type()), nt) {
+					n++
+					if !coercedFloatValue(p, st.Val, map[ssa.Value]bool{}, depth+1) {
+						return false
+					}
+				}
+			}
+		}
+	}
+	return n > 0
+}
+
+func namedFloatOnlyFromCoercion(p *Program, nt *types.Named, depth int) bool {
+	n := 0
+	for _, fn := range p.Funcs {
+		for _, b := range fn.Blocks {
+			for _, in := range b.Instrs {
+				var src ssa.Value
+				switch x := in.(type) {
+				case *ssa.Convert:
+					if types.Identical(x.Type(), nt) {
+						src = x.X
+					}
+				case *ssa.ChangeType:
+					if types.Identical(x.Type(), nt) {
+						src = x.X
+					}
+				}
+				if src == nil {
+					continue
+				}
+				if types.Identical(src.Type(), nt) {
+					continue
+				}
+				n++
+				if !coercedFloatValue(p, src, map[ssa.Value]bool{}, depth+1) {
+					return false
+				}
+			}
+		}
+	}
+	return n > 0
 }
 
 // coercedFloat: v is result #0 of the float coercion func(any) (float64, bool).
